@@ -393,10 +393,24 @@ class C08Executor(readfile.ReadFileExecutor):
         super().__init__(*a, **kw)
         self.merge_after_check = merge_after_check
 
+    def _rejection_site(self, stmt):
+        """The statement that rejects encrypted input: the `if ...: raise <encrypted error>` itself, or a statement calling a
+        same-module helper that contains one (only used to decide where state merging may start: precision/cost, not soundness)."""
+        if raises_encrypted(stmt):
+            return True
+        if isinstance(stmt, (ast.Expr, ast.Assign, ast.AnnAssign, ast.If)):
+            probe = stmt.test if isinstance(stmt, ast.If) else stmt
+            for n in ast.walk(probe):
+                if isinstance(n, ast.Call) and isinstance(n.func, ast.Name):
+                    h = self.module.functions.get(n.func.id)
+                    if h is not None and any(isinstance(r, ast.Raise) and r.exc is not None and ENCERR in ast.unparse(r.exc) for r in ast.walk(h)):
+                        return True
+        return False
+
     def exec_block(self, stmts, st):
         if self.merge_after_check and not self.merge and self.inline_depth == 0:
             for idx, s_ in enumerate(stmts):
-                if raises_encrypted(s_) and idx + 1 < len(stmts):
+                if self._rejection_site(s_) and idx + 1 < len(stmts):
                     outs = super().exec_block(stmts[:idx + 1], st)
                     falls = [o.st for o in outs if o.kind == "fall"]
                     res = [o for o in outs if o.kind != "fall"]
@@ -470,7 +484,17 @@ class C08Executor(readfile.ReadFileExecutor):
         self._loop_subject = ("while", None, st)
         return super().s_While(s, st)
 
+    def _imprecise(self, why):
+        if self.contract is not None:
+            self.contract.__dict__.setdefault("_imprecise", []).append(why)
+
     def loop_spec(self, node):
+        r = self._loop_spec(node)
+        if r is None and isinstance(node, (ast.For, ast.While)):
+            self._imprecise(f"loop at line {node.lineno} cut without an invariant")
+        return r
+
+    def _loop_spec(self, node):
         """Invariants follow the data, not the position of the loop: a `for` gets the rule of the sequence it iterates
         (LOOP_RULES, by element kind and origin tag), a `while` walking the one symbolic byte string of its frame gets the
         record-chain rule -- in the function under contract or in a helper executed in place."""
@@ -627,6 +651,7 @@ class C08Executor(readfile.ReadFileExecutor):
             st.heap[r] = HeapObj("unk", None, o.cls, o.fresh)
 
     def merge_states(self, states):
+        self._imprecise("state merge")
         for s_ in states:          # stream positions (raw z3 terms, irrelevant here) are forgotten at joins
             for k in [k for k in s_.ghost if isinstance(k, tuple) and k and k[0] == "pos"]:
                 del s_.ghost[k]
@@ -639,6 +664,7 @@ class C08Executor(readfile.ReadFileExecutor):
 
 
 EXECUTOR = C08Executor
+LOCK_OPTIONAL_KINDS = ("inv-init", "inv-preserve", "decreases")     # loop obligations exist only while the code has the loop
 EXECUTOR_KW = {}
 
 
@@ -1673,32 +1699,6 @@ def _canon(mod, call):
 
 def policy(repo, tier):
     obls, fns = [], []
-    # P1 (second opinion on the typestate, over the real AST, no SMT): every yield of the extractor is dominated by the
-    #    False branch of `if <detector>(...)`, and the True branch ends in `raise ExtractionFileEncryptedError(...)`.
-    for (rel, fn, det, _spec) in EXTRACTORS:
-        short = rel.split("/")[-1]
-        oid = f"C08/{short}::{fn}/policy#detector-dominates-every-yield"
-        m = loader.module(rel, repo)
-        f = m.functions.get(fn)
-        dname = det.split("::")[-1]
-        if f is None:
-            obls.append(ground_obligation(oid, False, "function missing", rel, definite=False))
-            continue
-        tests = [n for n in ast.walk(f) if isinstance(n, ast.If) and isinstance(n.test, ast.Call) and dotted(n.test.func).split(".")[-1] == dname]
-        if not tests:
-            obls.append(ground_obligation(oid, False, f"no `if {dname}(...)` in {fn}: shape not recognised", rel, definite=False))
-            continue
-        bad_branch = [t for t in tests if not (t.body and isinstance(t.body[-1], ast.Raise) and t.body[-1].exc is not None
-                                               and ENCERR in ast.unparse(t.body[-1].exc))]
-        mf = MustFacts(gen_cond=lambda test, branch, dname=dname: ["not-encrypted"] if (branch is False and isinstance(test, ast.Call)
-                                                                                        and dotted(test.func).split(".")[-1] == dname) else [],
-                       need=lambda n: [("not-encrypted", f"line {n.lineno}")] if isinstance(n, (ast.Yield, ast.YieldFrom)) else [])
-        res = mf.run(f)
-        ok = bool(res) and all(r.ok for r in res) and not bad_branch
-        why = "; ".join([f"yield at {r.desc} not dominated by a negative {dname} result" for r in res if not r.ok] +
-                        [f"True branch at line {t.lineno} does not end in raise {ENCERR}" for t in bad_branch]) or f"{len(res)} yield(s) dominated"
-        obls.append(ground_obligation(oid, ok, why, rel))
-        fns.append(dict(m.fn_info(fn), obligations=1))
     # P2: read_doc: the parse (doc.read()) dominates the yield; the reader is fresh (constructed in read_doc, _content None in __init__)
     m = loader.module(DOC, repo)
     f = m.functions.get("read_doc")
@@ -1714,7 +1714,7 @@ def policy(repo, tier):
                         and isinstance(n.value, ast.Constant) and n.value.value is None for n in ast.walk(init))
         ok = bool(res) and all(r.ok for r in res) and fresh and none_init
         why = f"{len(res)} yield(s); parse dominates={all(r.ok for r in res)}; fresh reader={fresh}; __init__ sets _content=None: {none_init}"
-    obls.append(ground_obligation("C08/doc_extractor.py::read_doc/policy#parse-of-a-fresh-reader-dominates-the-yield", ok, why, DOC, definite=False if not ok and (f is None or init is None) else True))
+    obls.append(ground_obligation("C08/doc_extractor.py::read_doc/policy#parse-of-a-fresh-reader-dominates-the-yield", ok, why, DOC, definite=False))
     # P3: 7z: an AES-coded header reaches _apply_decoder while the reader is constructed (call chain, syntactic)
     m = loader.module(SEVEN, repo)
     chain = ["SevenZipReader.__init__", "SevenZipReader._parse_header", "SevenZipReader._parse_end_header", "SevenZipReader._parse_encoded_header",
@@ -1744,19 +1744,23 @@ def policy(repo, tier):
         else:
             from pyvc.exctypes import Universe
             uni_ = Universe(repo or loader.REPO)
-            verdict, why = None, "no handler catches the error: it propagates"
+            verdict, why, swallows = None, "no handler catches the error: it propagates", False
             for h in tries[0].handlers:
                 names = [ast.unparse(e).split(".")[-1] for e in (h.type.elts if isinstance(h.type, ast.Tuple) else [h.type])] if h.type is not None else ["BaseException"]
                 if any(uni_.known(n) and uni_.is_subclass(ENCERR, n) for n in names):
-                    passes = bool(h.body) and isinstance(h.body[-1], ast.Raise) and (h.body[-1].exc is None or ENCERR in ast.unparse(h.body[-1].exc)) \
-                        and not any(isinstance(n, (ast.Return, ast.Continue, ast.Break)) for b in h.body for n in ast.walk(b))
+                    last = h.body[-1] if h.body else None
+                    passes = isinstance(last, ast.Raise) and (last.exc is None or ENCERR in ast.unparse(last.exc) or (h.name and ast.unparse(last.exc) == h.name)) \
+                        and not any(isinstance(n, (ast.Return, ast.Continue, ast.Break, ast.Try)) for b in h.body for n in ast.walk(b))
+                    swallows = not any(isinstance(n, ast.Raise) for b in h.body for n in ast.walk(b))
                     verdict, why = passes, f"first matching handler `except {', '.join(names)}` at line {h.lineno} " + ("re-raises" if passes else "does not re-raise it")
                     break
             outer = [t for t in ast.walk(f) if isinstance(t, ast.Try) and t is not tries[0] and any(n is tries[0] for n in ast.walk(t)) and t.handlers]
             if outer:
                 obls.append(ground_obligation(oid, False, "enclosing try with handlers: shape not recognised", DT, definite=False))
             else:
-                obls.append(ground_obligation(oid, verdict is not False, why, DT))
+                # definite only when the first matching handler has no `raise` at all (it visibly swallows the error);
+                # any other unrecognised shape is left to the native replayer (protected attachments)
+                obls.append(ground_obligation(oid, verdict is not False, why, DT, definite=bool(verdict is False and swallows)))
         fns.append(dict(m.fn_info("EmailContent.iterate_supported_attachments"), obligations=1))
     return {"obligations": obls, "functions": fns}
 
@@ -1787,6 +1791,27 @@ def view_validation(repo, tier):
 
 
 EXTRA = [policy, view_validation]
+
+
+def post_report(c, rep):
+    """A refuted VC is a counterexample only if the path it lies on is exact.  Functions executed in abstract mode (un-contracted
+    callees / unsupported expressions havocked, EXC-ANY), with a loop cut without invariant, with merged states, or with a model
+    that fell back to its weakest form (SHAPE_NOTES) over-approximate the code: their refutations become `unknown`, and
+    REPLAY_UNKNOWN hands them to the native replayer -- a reproduced failing input makes a VIOLATION, nothing else does."""
+    kw = EXECUTOR_KW.get(c.target) or {}
+    why = []
+    if kw.get("abstract"):
+        why.append("abstract execution (EXC-ANY / havocked callees)")
+    why += sorted(set(getattr(c, "_imprecise", [])))[:3]
+    if getattr(rep, "abstracted", None):
+        why.append("abstracted expression: " + str(rep.abstracted[0])[:80])
+    why += [n[:120] for n in SHAPE_NOTES[:2]]
+    if not why:
+        return
+    for o in rep.obligations:
+        if o.get("status") == "refuted":
+            o["status"] = "unknown"
+            o["reason"] = ("refuted on an over-approximated path (" + "; ".join(why) + "): not a definite counterexample. " + (o.get("reason") or ""))[:600]
 
 
 def bounded_chain_check():
